@@ -7,11 +7,15 @@
 (*   [kw ("given"|"when"|"then"), kind, a, b, n]                           *)
 (* kinds of given/when steps: "send" (event a, parameter v=b; b=0 none),   *)
 (*   "wait" (a seconds), "nothing", "repeat" (n times: send event a),      *)
+(*   "sendl" (event a with the list literal v=[0]*b: a mutable payload),   *)
 (*   "reproduce" (the given/when steps of the library scenario Lib, run     *)
 (*   with the current keyword)                                             *)
 (* kinds of then steps: "entered" "not_entered" "exited" "not_exited"      *)
 (*   "active" "not_active" (state a), "fired" (event a [with v=b])         *)
 (*   "not_fired" (event a), "no_event", "var_eq" "var_neq" (x vs a),       *)
+(*   "w_eq" "w_neq" (the list variable w, always [0]*x, vs the literal     *)
+(*   [0]*a: every step evaluates its own literal, whatever a statechart    *)
+(*   did to the payload of an earlier step),                               *)
 (*   "expr_holds" "expr_not_holds" (expression  x == a), "final"           *)
 (*   "not_final"                                                           *)
 (* Truth(step) is what the documented meaning of the step says about the   *)
@@ -45,6 +49,7 @@ Sends(S, ev, par, n) == IF n = 0 THEN S ELSE Sends(QueueExternal(S, ev, par, 0),
 (* a given/when step: the action, then the after_step hook (execute; when: monitored) *)
 ActStep1(c, B, st) ==
   LET S1 == CASE st.kind = "send" -> QueueExternal(B.S, st.a, st.b, 0)
+              [] st.kind = "sendl" -> QueueExternal(B.S, st.a, 0, 0)
               [] st.kind = "repeat" -> Sends(B.S, st.a, 0, st.n)
               [] OTHER -> B.S
       clk1 == IF st.kind = "wait" THEN B.clk + st.a ELSE B.clk
@@ -80,6 +85,8 @@ Truth(c, B, st) ==
        [] st.kind = "no_event"       -> sent = <<>>
        [] st.kind = "var_eq"         -> B.S.x = st.a
        [] st.kind = "var_neq"        -> B.S.x # st.a
+       [] st.kind = "w_eq"           -> B.S.x = st.a
+       [] st.kind = "w_neq"          -> B.S.x # st.a
        [] st.kind = "expr_holds"     -> B.S.x = st.a
        [] st.kind = "expr_not_holds" -> B.S.x # st.a
        [] st.kind = "final"          -> Final(B.S)
